@@ -214,8 +214,11 @@ impl BinaryDeserializer for char {
 
 impl BinaryDeserializer for String {
     fn deserialize(context: &mut DeserializationContext<'_>) -> Result<Self> {
-        let id = context.read_var_i32()?;
-        let bytes = context.read_bytes(id as usize)?;
+        let length = context.read_var_i32()?;
+        let length = usize::try_from(length).map_err(|_| {
+            Error::DeserializationFailure(format!("Invalid string length: {length}"))
+        })?;
+        let bytes = context.read_bytes(length)?;
         Ok(String::from_utf8(bytes.to_vec())?)
     }
 }
